@@ -285,6 +285,29 @@ pub fn check_input(info: &mut CaseInfo, input: &str) -> CheckResult {
         if let Ok(docs) = MarkedYamlOwned::load_from_str(input) {
             check_marked(info, &ob, docs.iter().map(MNode::O).collect(), "MarkedYamlOwned")?;
         }
+        // the same nodes loaded with deferred scalar resolution and resolved afterwards: resolving a
+        // node does not create it, so it still carries the span of its event
+        {
+            use saphyr::{AnnotatedNode, AnnotatedNodeOwned, YamlLoader};
+            let mut loader = YamlLoader::<MarkedYaml>::default();
+            loader.early_parse(false);
+            if saphyr_parser::Parser::new_from_str(input).load(&mut loader, true).is_ok() {
+                let mut docs = loader.into_documents();
+                for d in docs.iter_mut() {
+                    AnnotatedNode::parse_representation_recursive(d);
+                }
+                check_marked(info, &o, docs.iter().map(MNode::B).collect(), "MarkedYaml (deferred, then resolved)")?;
+            }
+            let mut loader = YamlLoader::<MarkedYamlOwned>::default();
+            loader.early_parse(false);
+            if saphyr_parser::Parser::new_from_str(input).load(&mut loader, true).is_ok() {
+                let mut docs = loader.into_documents();
+                for d in docs.iter_mut() {
+                    AnnotatedNodeOwned::parse_representation_recursive(d);
+                }
+                check_marked(info, &o, docs.iter().map(MNode::O).collect(), "MarkedYamlOwned (deferred, then resolved)")?;
+            }
+        }
     }
     let lines = input.contains('\n') || input.contains('\r');
     let nodes = o.events.iter().any(|(e, _)| matches!(e, Ev::Scalar { .. } | Ev::SeqStart(..) | Ev::MapStart(..)));
@@ -306,7 +329,7 @@ impl Property for C12P {
          independent count of LF / lone CR / CRLF breaks and characters; start <= end; a node starts no earlier than its parent \
          collection; a collection ends no earlier than it starts; one-line plain scalars cover exactly their text; quoted scalars \
          start at the opening quote and contain the closing quote (found by lexing the source); ScanError's Display ends with \
-         'line L column C+1'; MarkedYaml / MarkedYamlOwned nodes carry the span of their creating event (tree and events walked \
+         'line L column C+1'; MarkedYaml / MarkedYamlOwned nodes — loaded eagerly, and loaded with deferred resolution and then resolved — carry the span of their creating event (tree and events walked \
          together). Non-trivial = (>= 2 lines or multi-byte char or comment) and >= 1 node; distinct by input hash."
             .into()
     }
